@@ -69,6 +69,16 @@ func vC19Configs(htp string) []vC19Cfg {
 			}
 		}}})
 	}
+	// reverse-proxy mode WITHOUT any trusted address (the default), for the unix-socket peer sweep below
+	for _, hdr := range []string{"X-Real-IP", "X-Forwarded-For"} {
+		h := hdr
+		out = append(out, vC19Cfg{"reverse-proxy+no-trusted-ips+" + h, vEnvCfg{oidc: true, mod: func(o *options.Options) {
+			o.ReverseProxy = true
+			o.RealClientIPHeader = h
+			o.SkipAuthRoutes = []string{"GET=^/public"}
+			o.HtpasswdFile = htp
+		}}})
+	}
 	// bearer tokens of a second issuer, accepted through the generic token-to-session loader (sessions with an
 	// expiry but no creation time)
 	out = append(out, vC19Cfg{"extra-jwt-issuer+claims", vEnvCfg{oidc: true, extraJWT: true, mod: func(o *options.Options) {
@@ -276,6 +286,14 @@ func driveC19(t *testing.T, out *vEmitter) {
 					}
 					tryOne("GET", tg, h, remotes[0], hs, "")
 					tryOne("GET", tg, hosts[0], remotes[0], append(append([][2]string(nil), hs...), [2]string{"X-Forwarded-Host", h}), "")
+				}
+			}
+		}
+		// every peer-address spelling (a unix-socket peer is "@") with every forwarding / client-IP header set
+		for _, rm := range remotes {
+			for _, fv := range fwdVariants {
+				for _, tg := range []string{"/", "/public/x", "/oauth2/auth", "/oauth2/sign_out"} {
+					tryOne("GET", tg, hosts[0], rm, fv, "")
 				}
 			}
 		}
